@@ -15,6 +15,7 @@ func init() { register("C04", rulesC04, nil) }
 // in function f and that the returned cancel func is deferred.
 func (c *Ctx) detachedNotifyCtx(f *Func, ctxArg ast.Expr, ctxParam types.Object) (bool, string) {
 	wt := c.Std("context", "", "WithTimeout")
+	wd := c.Std("context", "", "WithDeadline")
 	woc := c.Std("context", "", "WithoutCancel")
 	tmo := c.Obj(pM, "notifyCancellationTimeout")
 	v := f.ObjOf(ctxArg)
@@ -27,15 +28,21 @@ func (c *Ctx) detachedNotifyCtx(f *Func, ctxArg ast.Expr, ctxParam types.Object)
 			continue
 		}
 		call, ok := ast.Unparen(as.Rhs[0]).(*ast.CallExpr)
-		if !ok || !f.IsCallTo(call, wt) || len(call.Args) != 2 {
-			return false, "context is not built with context.WithTimeout"
+		if !ok || !(f.IsCallTo(call, wt) || f.IsCallTo(call, wd)) || len(call.Args) != 2 {
+			return false, "context is not built with context.WithTimeout or context.WithDeadline"
 		}
 		inner, ok := ast.Unparen(call.Args[0]).(*ast.CallExpr)
 		if !ok || !f.IsCallTo(inner, woc) || len(inner.Args) != 1 || f.ObjOf(inner.Args[0]) != ctxParam {
 			return false, "parent is not context.WithoutCancel(ctx) of the caller's context (" + exprStr(call.Args[0]) + "): a Background context loses the request-scoped values used for routing, the cancelled ctx itself can never deliver the notice"
 		}
-		if f.ObjOf(call.Args[1]) != tmo {
-			return false, "timeout is not notifyCancellationTimeout"
+		// the bound comes from notifyCancellationTimeout and from nothing the caller's context says: that context is done, its
+		// deadline (if it had one) has passed, and a notice bounded by it can never be delivered
+		deps := f.dependsOn(call.Args[1])
+		if !deps[tmo] {
+			return false, "the bound is not derived from notifyCancellationTimeout"
+		}
+		if deps[ctxParam] {
+			return false, "the bound of the notice depends on the caller's context (" + exprStr(call.Args[1]) + "): when the call is abandoned because its deadline passed, the notice is dead on arrival"
 		}
 		cancelVar := f.ObjOf(as.Lhs[1])
 		deferred := false
@@ -50,6 +57,50 @@ func (c *Ctx) detachedNotifyCtx(f *Func, ctxArg ast.Expr, ctxParam types.Object)
 		return true, ""
 	}
 	return false, "no definition of the context variable found"
+}
+
+// dependsOn returns the objects e is computed from: those it mentions and, through local variables, those mentioned by
+// anything assigned to them anywhere in the enclosing declared function (flow-insensitive, so an over-approximation).
+func (f *Func) dependsOn(e ast.Expr) map[types.Object]bool {
+	root := f.Root()
+	writes := Writes(root.Body, true)
+	deps := map[types.Object]bool{}
+	var work []ast.Node
+	work = append(work, e)
+	for len(work) > 0 {
+		n := work[len(work)-1]
+		work = work[:len(work)-1]
+		ast.Inspect(n, func(x ast.Node) bool {
+			id, ok := x.(*ast.Ident)
+			if !ok {
+				return true
+			}
+			o := f.Info().Uses[id]
+			if o == nil || deps[o] {
+				return true
+			}
+			deps[o] = true
+			if vr, isVar := o.(*types.Var); isVar && !vr.IsField() && vr.Parent() != nil && vr.Pkg() != nil && vr.Parent() != vr.Pkg().Scope() {
+				for _, w := range writes {
+					lid, ok := ast.Unparen(w.LHS).(*ast.Ident)
+					if !ok || (f.Info().Uses[lid] != o && f.Info().Defs[lid] != o) {
+						continue
+					}
+					if w.RHS != nil {
+						work = append(work, w.RHS)
+					} else if as, ok := w.Stmt.(*ast.AssignStmt); ok {
+						for _, r := range as.Rhs {
+							work = append(work, r)
+						}
+					} else if rs, ok := w.Stmt.(*ast.RangeStmt); ok {
+						work = append(work, rs.X)
+					}
+				}
+			}
+			return true
+		})
+	}
+	return deps
 }
 
 func rulesC04(c *Ctx) {
